@@ -1053,7 +1053,50 @@ class Interp(object):
         return out
 
     def ex_GeneratorExp(self, e, env):
-        return self.ex_ListComp(e, env)
+        """LAZY, as in CPython: elements (and their side effects) are produced
+        only as far as the consumer asks (any/all/next stop early)"""
+        if len(e.generators) != 1:
+            raise OutsideSubset('nested comprehension')
+        g = e.generators[0]
+        it = self.eval(g.iter, env)      # the outermost iterable is evaluated at once
+        if isinstance(it, SymSeq):
+            raise OutsideSubset('comprehension over symbolic sequence')
+
+        def gen():
+            sub = Env(env, env.module, env.func)
+            for x in self.iterate(it):
+                self.assign(g.target, x, sub)
+                if all(self.truth(self.eval(c, sub), _lbl(env, e)) for c in g.ifs):
+                    yield self.eval(e.elt, sub)
+        return IterV(gen())
+
+    def ex_SetComp(self, e, env):
+        out = SetV()
+        for x in self.ex_ListComp(e, env):
+            self.lib._set_add(self, out, x)
+        return out
+
+    def ex_DictComp(self, e, env):
+        if len(e.generators) != 1:
+            raise OutsideSubset('nested comprehension')
+        g = e.generators[0]
+        out = {}
+        it = self.eval(g.iter, env)
+        if isinstance(it, SymSeq):
+            raise OutsideSubset('comprehension over symbolic sequence')
+        sub = Env(env, env.module, env.func)
+        for x in self.iterate(it):
+            self.assign(g.target, x, sub)
+            if all(self.truth(self.eval(c, sub), _lbl(env, e)) for c in g.ifs):
+                self.lib.dict_store(self, out, self.eval(e.key, sub),
+                                    self.eval(e.value, sub))
+        return out
+
+    def st_Assert(self, s, env):
+        if not self.truth(self.eval(s.test, env), _lbl(env, s)):
+            raise PyExc(self.make_exc('AssertionError', ''))
+        return
+        yield
 
     def ex_JoinedStr(self, e, env):
         raise OutsideSubset('f-string')
